@@ -232,6 +232,34 @@ def derived(check, tier, seed):
     s.done()
 
 
+def deductive(check, tier):
+    """ljust / rjust without a fill character under contract (contracts/justify.py): text of str.ljust/rjust, own formatting kept but for
+    an unshared background, uniform padding that shows only formatting every character has - for every value and width"""
+    import contracts.justify as J
+    from pyvc.verify import verify
+    for c in J.CONTRACTS:
+        verify(c, tier, check)
+    check.assume("deductive sub-result: FmtStr.ljust / rjust (fillchar None) for every value and width, over the contracts of shared_atts, "
+                 "new_with_atts_removed, __add__/__radd__, .s and an ASSUMED contract of fmtstr(blanks, **attributes read from runs); "
+                 "split / splitlines / delegated methods are regex / reflection code: bounded only")
+    s = Suite(check, "C15.justify_contracts", "the ljust / rjust contracts evaluated at run time on every layout of <= 3 runs over 4 texts x 5 "
+              "attribute sets x widths len-1..len+2", bound="<= 3 runs")
+    texts = ["", "a", "bc"]
+    pool = [{}, {"fg": 31}, {"fg": 31, "bg": 44}, {"bg": 44, "bold": True}, {"bg": 41, "fg": 31}]
+    for n in range(0, 4):
+        for ts in itertools.product(texts, repeat=n):
+            for ats in itertools.product(range(len(pool)), repeat=n):
+                if n == 3 and (ats[0] + ats[1] + ats[2]) % 2:
+                    continue
+                f = FmtStr(*[Chunk(t, dict(pool[k])) for t, k in zip(ts, ats)])
+                L = len(f.s)
+                for w in (L - 1, L, L + 2):
+                    s.contract_case(J.ljust, dict(self=f, width=w, fillchar=None))
+                    s.contract_case(J.rjust, dict(self=f, width=w, fillchar=None))
+    s.done()
+
+
 def run(check, tier, seed):
+    deductive(check, tier)
     bounded(check, tier, seed)
     derived(check, tier, seed)
